@@ -696,6 +696,13 @@ PUNCT = [", ", ". ", "; ", ": ", "! ", "? ", " (", ") ", " - ", " / ", "... ", "
          ".\" ", ".) ", ".\u00bb ", ".\u201d ", ".\u2019 ", " \".", " (.", "., ", ",. ", ".. ", ".- ", "?! ", ".\u00a0", " . ", ". . "]
 
 
+import srcmine as _srcmine
+for _c in _srcmine.special_chars():          # source-directed probing: characters written in literals of the current source
+    for _v in (_c, _c + " ", " " + _c + " "):
+        if _v not in PUNCT:
+            PUNCT.append(_v)
+
+
 def sentence(rng, lang, bank, k=None, seps=None, extra=()):
     """random sentence: number phrases, ordinary words, linking words, punctuation"""
     k = k if k is not None else 1 + rng.below(6)
@@ -1054,7 +1061,7 @@ def oracle_c06(ctx, focus):
             for k in ((1, 20, 64, 347, 348, 500, 1000) if ctx.tier != "thorough" else (1, 2, 5, 20, 52, 64, 200, 346, 347, 348, 349, 400, 500, 747, 1000, 1021)):
                 mid = str(5 ** (k + 53) * (2 ** 53 + 1)).rjust(k + 53, "0")     # digits of 2^-k * (1 + 2^-53)
                 for ip in (0, 1, 7):
-                    for fr in (mid, mid + "1", mid[:-1] + "49", mid[:400], mid[:401]):
+                    for fr in [mid, mid + "1", mid[:-1] + "49", mid[:400], mid[:401]] + [mid[:z] for z in _srcmine.sizes(41, 1100) if z < len(mid)]:
                         t = dig[ip] + " " + b["dec"] + " " + " ".join(dig[int(c)] for c in fr)
                         reqs.append("occ\t%s\t%s\t%s" % (lang, THR0, esc(t)))
                         meta.append((lang, t))
@@ -1514,7 +1521,7 @@ def oracle_c11(ctx, focus):
         cjw = {"en": "and", "fr": "et", "es": "y", "pt": "e", "it": "e", "de": "und", "nl": "en"}[lang]
         singles = [p_ for p_ in bank if " " not in p_][:: max(1, len(bank) // 12)][:12] or bank[:3]
         for w_ in singles:
-            for k_ in (120, 251, 300, 2000):
+            for k_ in [120, 251, 300, 2000] + [max(1, z - len(w_.encode("utf-8"))) for z in _srcmine.sizes(41, 70000)]:
                 cands = [w_ + c_ * k_ for c_ in "senaoi"]
                 cands += [w_ + "-" + (cjw + "-") * (k_ // 4) + w_, w_ + cjw * (k_ // 3) + w_, (w_ + "-") * (k_ // 8) + w_, w_ * (k_ // 6)]
                 for c_ in cands:
@@ -1898,7 +1905,7 @@ def ws_substitute(rng, s):
             if rng.chance(1, 40):
                 # a very long run (hundreds of characters / bytes): the amount of whitespace must not matter either
                 c = rng.choice(WS_CHARS)
-                out.append(c * rng.choice([257, 300, 129, 86, 1000]))
+                out.append(c * rng.choice([257, 300, 129, 86, 1000] + _srcmine.sizes(41, 5000)))
             elif mode < 3:
                 out.append(uni)
             elif mode < 6:
@@ -1939,7 +1946,7 @@ def oracle_c17(ctx, focus):
         # around a separator must not matter at ANY size, not only tiny and huge ones)
         singles_ = [p_ for p_ in bank if " " not in p_][:40] or bank[:5]
         for pch in (".", ",", ";", "-", "/", "!", "(", "\u2026"):
-            for pad_n in range(1, 41):
+            for pad_n in list(range(1, 41)) + _srcmine.sizes(41, 2000):
                 for blank in (" ", "\u00a0") if pad_n % 4 == 0 else (" ",):
                     a_, b_ = rng.choice(bank), rng.choice(singles_)
                     t = a_ + " " + pch + " " + b_
@@ -1998,6 +2005,7 @@ def oracle_c18(ctx, focus):
     punct = [",", ".", ";", "!", "-", "(", "...", ":", "\u0001", "\u001f", "\u0000", "\u2010", "7",
              # format characters: invisible, but not blanks -- punctuation for the neighbour rule
              "\ufeff", "\u200b", "\u2060", "\u00ad", "\u200d", "\u061c"]
+    punct += [c for c in _srcmine.special_chars() if c not in punct and c not in "'-"]
     # every alphabetic string literal of the English module that is not a number word is a possible neighbour too
     # (a special case for one particular word next to `o` would name that word in the source)
     import vocab as _vocab
